@@ -1,4 +1,4 @@
-HOOK_COMMITS = ["1f23ce1", "19a6366", "2f68a08", "696cad2", "6d64dfa", "02a7a17", "ec44b21", "4f0f0e1", "611fd41", "a6d55ff", "71ec365", "16c9f99", "959e5de", "8e5f164"]
+HOOK_COMMITS = ["1f23ce1", "19a6366", "2f68a08", "696cad2", "6d64dfa", "02a7a17", "ec44b21", "4f0f0e1", "611fd41", "a6d55ff", "71ec365", "16c9f99", "959e5de", "8e5f164", "cae6fbb"]
 NOTES = ("Solver-based checking of the real code: Kani/CBMC harnesses over roto's Rust (engine K), translation validation of the "
          "emitted cranelift IR with symbolic arguments in z3 (engine T), symbolic interpretation of MIR slices of the LIR evaluator "
          "(engine M). See DESIGN.md, section 10 for the as-built record. Exit 2 = inconclusive (timeout, OOM, vacuous harness, "
@@ -48,9 +48,11 @@ claim("C05", MC,
       "Kani/CBMC, one harness per instantiation (32, plus a List<Option<bool>> built through the Rust API): for all payload values the repr(u8) mirror of Option/Result/Verdict has tag and payload where "
       "roto's enum layout rule puts them, in both directions, and untransform(transform(v)) == v. Engine T: identity functions, pass-through to host "
       "functions, Option/Verdict built in the script and read by Rust and vice versa, Option/Result built by registered Rust functions and taken apart "
-      "by the script, `()` parameters of registered functions, registered constants, for all values.",
-      "Registered constants are read through the bytes hook H2 captures. Machine calling convention (only exercised by replays), "
-      "String/List contents and context fields are outside.",
+      "by the script, `()` parameters of registered functions, registered constants, strings handed to host functions, clones of Result/Verdict values that "
+      "hold a string, a zero-sized registered argument in front of a scalar (entry call bound by machine argument position), for all values.",
+      "Registered constants are read through the bytes hook H2 captures. The machine calling convention is modelled only as 'argument k goes to parameter k' "
+      "for the zero-sized-argument cells (otherwise only exercised by replays); List contents and context fields are outside. On the pinned tree a zero-sized "
+      "registered argument shifts every later argument: recorded known finding (known-findings.json).",
       "Kani/CBMC bounded model checking of the mirror enums + z3 translation validation of boundary identity programs", "K+T", "DESIGN.md 5/C05")
 claim("C06", MC,
       "Kani/CBMC: every token recogniser, skip-and-error path of the lexer on EVERY UTF-8 string of at most 3 bytes (thorough: 4, ASCII 5): no "
@@ -80,7 +82,8 @@ claim("C10", TV,
       "z3 reachability queries for trapping operands on emitted CLIF + Kani on argument-validating kernels", "T+K", "DESIGN.md 5/C10")
 claim("C15", MC,
       "Kani/CBMC: the real List<T> against an array model, one harness per (pre-state, operation-kind sequence): element values and lookup indices "
-      "symbolic, CBMC pointer checks on every access, two aliased handles; capacity arithmetic for all sizes; == terminates and answers element-wise.",
+      "symbolic, CBMC pointer checks on every access, two aliased handles; capacity arithmetic for all sizes; == terminates and answers element-wise; "
+      "script-side contains/index on an empty list of drop-tracked elements release the item they were given exactly once.",
       "Operation kinds enumerated (stated bound), u64/u8 elements, sequences of <= 2 (thorough 3) operations from a 0- or 2-element state. Stubs: "
       "Mutex::lock -> try_lock/DEADLOCK, swap_nonoverlapping -> byte loop. contains/index/concat/to_vec/join, growth, zero-sized and tracked elements "
       "and script-side bindings are outside (over budget).",
@@ -99,7 +102,8 @@ claim("C17", MC,
       "abs, sqrt, is_nan, is_infinite, is_finite (pow: argument order only) executed over z3 floating-point terms and decided equal to the IEEE-754 operation the "
       "documentation names, for every bit pattern; counterexamples replayed on the real JIT.",
       "The byte- and line-indexed string views and the float built-ins; String methods delegating to std, the char view (std iterator adaptors exceed 24 GB in CBMC "
-      "even for 2 ASCII bytes), to_string, IpAddr/Prefix accessors are outside. StringLines::get is a recorded known finding.",
+      "even for 2 ASCII bytes), StringBuf (Arc<str> construction under a mutex: out of memory at 24 GB with one symbolic character), to_string are outside; "
+      "IpAddr/Prefix methods are decided as delegations only. StringLines::get is a recorded known finding.",
       "Kani/CBMC differential checking of string views against byte-loop references; z3 floating-point theory over the MIR bodies of the float built-ins", "K+B", "DESIGN.md 5/C17, 10.5b")
 claim("C20", TV,
       "Engine M: for every program of the corpus that lowers to scalar, control-flow, script-function-call and memory instructions (scalars, records, enums, "
